@@ -2,6 +2,7 @@
 from checks import kern
 from checks import pure_fns
 from checks import api_cov
+from checks import scale_inv
 LEAN_TARGETS = ["QmcProps.C03", "drv_c03"]
 BINS = ["c03", "kern"]
 
@@ -86,4 +87,5 @@ def main(ck):
         ck.correspond("timestep-embedded-rvb", "drv_c03", ck.harness("c03", ["pipeline"]))
         kern.run(ck, "rvb")   # exact one-step kernels of the real code on tiny systems: pi K = pi
     api_cov.run(ck, "c03")   # otherwise unexercised public API, model-free oracles of this property
+    scale_inv.run(ck, "c03")   # power-of-two unit change: identical trajectory, energies exactly scaled (model-free twin oracle)
     return ck.finish(RULE)
